@@ -149,9 +149,14 @@ static const char* WKT_POOL[] = {
     // huge / tiny coordinates
     "POINT (1e300 1e300)", "LINESTRING (-1e300 -1e300, 1e300 1e300)", "POLYGON ((0 0, 1e300 0, 1e300 1e300, 0 1e300, 0 0))", "LINESTRING (0 0, 1e-300 1e-300)",
     "POLYGON ((-1e308 -1e308, 1e308 -1e308, 1e308 1e308, -1e308 1e308, -1e308 -1e308))", "MULTIPOINT ((1e300 0), (0 1e300), (-1e300 0))", "LINESTRING (0 0, 1e300 1, 2 1e-300)",
-    "POLYGON ((0 0, 1e-320 0, 1e-320 1e-320, 0 0))" };
+    "POLYGON ((0 0, 1e-320 0, 1e-320 1e-320, 0 0))",
+    // configured pairs: argument geometries in a particular relative position (a line whose vertices are strictly inside a concave / holed polygon
+    // while a segment leaves it; nested frames; a polygon with two holes inside a clip window)
+    "POLYGON ((0 0, 10 0, 10 10, 7 10, 7 3, 3 3, 3 10, 0 10, 0 0))", "LINESTRING (1.5 8, 8.5 8)", "MULTILINESTRING ((1.5 8, 8.5 8), (1 9, 9 9))", "LINESTRING (1 3, 5 3)",
+    "MULTIPOLYGON (((0 0, 20 0, 20 20, 0 20, 0 0), (2 2, 18 2, 18 18, 2 18, 2 2)), ((4 4, 16 4, 16 16, 4 16, 4 4), (6 6, 14 6, 14 14, 6 14, 6 6)))",
+    "POLYGON ((-5 -5, 30 -5, 30 30, -5 30, -5 -5), (2 2, 4 2, 4 4, 2 4, 2 2), (6 6, 8 6, 8 8, 6 8, 6 6))" };
 static const int N_WKT = sizeof WKT_POOL / sizeof WKT_POOL[0];
-static const char* WKT_CLASS(int i) { return i < 20 ? "ordinary" : i < 41 ? "empty" : i < 53 ? "nonfinite" : i < 61 ? "invalid" : i < 70 ? "zerolen" : i < 83 ? "curved" : "huge"; }
+static const char* WKT_CLASS(int i) { return i < 20 ? "ordinary" : i < 41 ? "empty" : i < 53 ? "nonfinite" : i < 61 ? "invalid" : i < 70 ? "zerolen" : i < 83 ? "curved" : i < 91 ? "huge" : "configured"; }
 static const char* BAD_WKT[] = { "", "POINT", "POINT (1", "POLYGON ((0 0, 1 1))", "LINESTRING (0 0)", "GEOMETRYCOLLECTION (POINT (1 1)", "FOO (1 1)", "POINT (1 2 3 4 5)",
     "LINEARRING (0 0, 1 1, 2 2)", "CIRCULARSTRING (0 0, 1 1)", "COMPOUNDCURVE ((0 0, 1 1), (5 5, 6 6))", "CURVEPOLYGON ((0 0, 1 1, 2 2))", "POINT (1e400 1)", "MULTIPOINT (1 1, 2 2", "POLYGON (EMPTY, (0 0, 1 0, 1 1, 0 0))" };
 static const char* PATTERNS[] = { "T*F**FFF*", "FF*FF****", "T********", "TTTTTTTTT", "*********", "0FFFFFFF2", "", "T", "XXXXXXXXX", "T*F**FFF*T", "212101212" };
@@ -533,7 +538,9 @@ struct Gen {
     double dbl(bool tol) { if (r.chance(25)) return (r.unit() - 0.5) * std::pow(10.0, r.range(-2, 3)); if (tol) return TPOOL[r.below(sizeof TPOOL / sizeof TPOOL[0])]; return DPOOL[r.below(sizeof DPOOL / sizeof DPOOL[0])]; }
     std::string str(const std::string& kind) {
         if (kind == "wkt") { int i = (int) r.below(N_WKT); stat[std::string("lit_") + WKT_CLASS(i)]++; return WKT_POOL[i]; }
-        if (kind == "wktany") { if (r.chance(25)) { stat["lit_badwkt"]++; return BAD_WKT[r.below(sizeof BAD_WKT / sizeof BAD_WKT[0])]; } return str("wkt"); }
+        if (kind == "wktany") { if (r.chance(25)) {
+                if (r.chance(12)) { stat["lit_badwkt_overlong_token"]++; return std::string((size_t) (r.chance(50) ? 1500 : 70000), 'Q') + " (1 1)"; }   // an error text longer than any fixed message buffer
+                stat["lit_badwkt"]++; return BAD_WKT[r.below(sizeof BAD_WKT / sizeof BAD_WKT[0])]; } return str("wkt"); }
         if (kind == "pat") return PATTERNS[r.below(sizeof PATTERNS / sizeof PATTERNS[0])];
         if (kind == "json") return JSON_POOL[r.below(sizeof JSON_POOL / sizeof JSON_POOL[0])];
         if (kind == "hex") return HEX_POOL[r.below(sizeof HEX_POOL / sizeof HEX_POOL[0])];
@@ -576,6 +583,23 @@ struct Gen {
             for (int i = (int) e.c.slots.size() - 1; i >= 0; i--) { if (!e.c.exclOk(i)) continue;
                 const Fn& f = FNS[FNIDX[D.at(e.c.slots[i].kind)]]; std::vector<Val> a(1); a[0].k = 'o'; a[0].id = i; e.doCall(f, a, {}); }
     }
+    // a configured opening: two arguments in a particular relative position, a prepared geometry, and every prepared / binary predicate on
+    // the pair — the rarely taken early-outs of the prepared predicates (vertices inside, a segment leaving; nested frames) become reachable
+    void configuredOpening() {
+        static const char* P[] = {"POLYGON ((0 0, 10 0, 10 10, 7 10, 7 3, 3 3, 3 10, 0 10, 0 0))", "POLYGON ((0 0, 10 0, 10 10, 0 10, 0 0), (2 2, 4 2, 4 4, 2 4, 2 2))",
+            "MULTIPOLYGON (((0 0, 20 0, 20 20, 0 20, 0 0), (2 2, 18 2, 18 18, 2 18, 2 2)), ((4 4, 16 4, 16 16, 4 16, 4 4), (6 6, 14 6, 14 14, 6 14, 6 6)))",
+            "POLYGON ((-5 -5, 30 -5, 30 30, -5 30, -5 -5), (2 2, 4 2, 4 4, 2 4, 2 2), (6 6, 8 6, 8 8, 6 8, 6 6))"};
+        static const char* L[] = {"LINESTRING (1.5 8, 8.5 8)", "MULTILINESTRING ((1.5 8, 8.5 8), (1 9, 9 9))", "LINESTRING (1 3, 5 3)", "POLYGON ((1 1, 9 1, 9 2, 1 2, 1 1))", "MULTIPOINT ((1 1), (5 5), (9 9))"};
+        auto call1 = [&](const char* fn, std::vector<Val> a) -> int { auto it = FNIDX.find(fn); if (it == FNIDX.end()) return -1; size_t before = e.c.slots.size();
+            if (!e.doCall(FNS[it->second], a, {})) return -1; return e.c.slots.size() > before ? (int) e.c.slots.size() - 1 : -2; };
+        auto S = [](const char* w) { Val v; v.k = 's'; v.s = w; return v; }; auto O = [](int id) { Val v; v.k = 'o'; v.id = id; return v; };
+        int p = call1("GEOSGeomFromWKT_r", {S(P[r.below(4)])}), l = call1("GEOSGeomFromWKT_r", {S(L[r.below(5)])}); if (p < 0 || l < 0) return;
+        int pr = call1("GEOSPrepare_r", {O(p)}); if (pr < 0) return;
+        static const char* PP[] = {"GEOSPreparedContains_r", "GEOSPreparedContainsProperly_r", "GEOSPreparedCoveredBy_r", "GEOSPreparedCovers_r", "GEOSPreparedCrosses_r", "GEOSPreparedDisjoint_r",
+            "GEOSPreparedIntersects_r", "GEOSPreparedOverlaps_r", "GEOSPreparedTouches_r", "GEOSPreparedWithin_r"};
+        for (int round = 0; round < 2; round++) for (auto fn : PP) if (r.chance(80)) call1(fn, {O(pr), O(l)});
+        stat["configured_opening"]++;
+    }
     void run(int len) {
         // C12_FOCUS=<entry point>: make one function dominate (used to look for a failing call after a table proof broke)
         if (const char* fo = getenv("C12_FOCUS")) { auto it = FNIDX.find(fo); if (it != FNIDX.end()) { long tot = 0; for (auto& f : FNS) tot += f.weight; FNS[it->second].weight = (int) tot; } }
@@ -583,6 +607,7 @@ struct Gen {
         // start with a few literals so that most functions are callable
         int nlit = r.range(2, 4);
         for (int i = 0; i < nlit; i++) { const Fn& f = FNS[FNIDX["GEOSGeomFromWKT_r"]]; std::vector<Val> a; if (pick(f, a)) e.doCall(f, a, {}); }
+        if (r.chance(12)) configuredOpening();
         for (int step = 0; step < len; step++) {
             for (int tries = 0; tries < 20; tries++) {
                 long w = (long) r.below((uint64_t) total); size_t k = 0; while (w >= FNS[k].weight) { w -= FNS[k].weight; k++; }
